@@ -277,6 +277,50 @@ fn sub_negative(input: &[u8], st: &mut Stats) -> R {
     Ok(())
 }
 
+/// one Loader object used for two parses in a row (the first usually fails), then fed a few
+/// instructions by hand: whatever it answers, it must not panic
+fn sub_reused_loader(input: &[u8], st: &mut Stats) -> R {
+    use rspirv::binary::Consumer;
+    let mut cs = Cs::new(input);
+    let mut one = |cs: &mut Cs| -> (Vec<u8>, String) {
+        let mode = match cs.below(3) {
+            0 => ModMode::Ordered,
+            1 => ModMode::Interleaved,
+            _ => ModMode::Wild,
+        };
+        let m = gen_module(cs, mode, 24);
+        let (bytes, kinds) = if cs.below(4) != 0 { mutate(cs, &m) } else { (words_to_bytes(&m.words()), vec![]) };
+        (bytes, format!("{}mutations {:?}", m.render(), kinds))
+    };
+    let (a, da) = one(&mut cs);
+    let (b, db) = one(&mut cs);
+    let dec = || format!("first parse:\n{}\nsecond parse:\n{}", da, db);
+    let mut ld = rspirv::dr::Loader::new();
+    let ra = no_panic("parse_bytes with a Loader", || rspirv::binary::parse_bytes(&a, &mut ld).is_ok()).map_err(|f| f.with_decoded(dec()))?;
+    let rb = no_panic("parse_bytes with the same Loader again", || rspirv::binary::parse_bytes(&b, &mut ld).is_ok()).map_err(|f| f.with_decoded(dec()))?;
+    // by hand: the instructions of the second binary once more
+    if let Ok((c, _)) = parse_bytes_collect(&b) {
+        no_panic("Loader fed through Consumer methods after earlier parses", || {
+            for i in c.insts.iter().take(40) {
+                let _ = ld.consume_instruction(i.clone());
+            }
+            let _ = ld.finalize();
+        })
+        .map_err(|f| f.with_decoded(dec()))?;
+    }
+    no_panic("Loader::module after reuse", || {
+        let m = ld.module();
+        let _ = m.assemble();
+    })
+    .map_err(|f| f.with_decoded(dec()))?;
+    st.count(if ra { "first_parse_ok" } else { "first_parse_failed" });
+    st.count(if rb { "second_parse_ok" } else { "second_parse_failed" });
+    if !ra {
+        st.nontrivial(hash64(&a) ^ hash64(&b).rotate_left(9));
+    }
+    Ok(())
+}
+
 /// type declarations, typed values and literal consumers over a tiny id pool: forward
 /// references, ids declared twice with different widths, consumers before their types
 fn sub_type_chaos(input: &[u8], st: &mut Stats) -> R {
@@ -357,6 +401,7 @@ pub const SUBS: &[Sub] = &[
     Sub { name: "raw", f: sub_raw },
     Sub { name: "decoder", f: sub_decoder },
     Sub { name: "edge-ids", f: sub_edge_ids },
+    Sub { name: "reused-loader", f: sub_reused_loader },
 ];
 
 pub fn run(ctx: &Ctx) {
@@ -369,6 +414,7 @@ pub fn run(ctx: &Ctx) {
     drive_random(ctx, &SUBS[5], ctx.n(50_000, 20_000_000), 200);
     drive_random(ctx, &SUBS[6], ctx.n(100_000, 50_000_000), 300);
     drive_random(ctx, &SUBS[7], ctx.n(10_000, 5_000_000), 4000);
+    drive_random(ctx, &SUBS[8], ctx.n(10_000, 5_000_000), 2400);
     if !ctx.quick() && !ctx.failed() {
         crate::fuzzing::drive_fuzz(ctx, "bytes", 1_000_000);
         crate::fuzzing::drive_fuzz(ctx, "modules", 300_000);
@@ -379,7 +425,7 @@ pub fn finish(ctx: &Ctx) -> i32 {
     crate::engine::finish(
         ctx,
         Finish {
-            rule: "cases: (a) every core opcode embedded in OpSpecConstantOp with 0-4 trailing words; (b) generated modules (ordered / interleaved / wild), 3 in 4 with 1-3 stacked byte-level faults; (c) header + pseudo-instructions (declared opcodes, arbitrary word counts and operand words biased towards small declared values); (d) raw bytes with and without magic; (e) decoder request scripts with limits from 0 to usize::MAX on buffers of any length. Oracle: catch_unwind around parse_bytes, parse_words, load_bytes, and for accepted modules assemble/disassemble of the module and of every instruction, and around every decoder request; overflow checks and debug assertions are enabled in the harness build. non-trivial = input that gets past the header (>= 1 instruction delivered, or a fault inside an instruction) / decoder script with a limit change and a string request; distinct = hash of the input.",
+            rule: "cases: (a) every core opcode embedded in OpSpecConstantOp with 0-4 trailing words; (b) generated modules (ordered / interleaved / wild), 3 in 4 with 1-3 stacked byte-level faults; (c) header + pseudo-instructions (declared opcodes, arbitrary word counts and operand words biased towards small declared values); (d) raw bytes with and without magic; (e') one Loader used for two parses in a row and then fed by hand; (e) decoder request scripts with limits from 0 to usize::MAX on buffers of any length. Oracle: catch_unwind around parse_bytes, parse_words, load_bytes, and for accepted modules assemble/disassemble of the module and of every instruction, and around every decoder request; overflow checks and debug assertions are enabled in the harness build. non-trivial = input that gets past the header (>= 1 instruction delivered, or a fault inside an instruction) / decoder script with a limit change and a string request; distinct = hash of the input.",
             assumptions: vec!["termination: every case returned (a hang would trip the watchdog, exit 2)".into()],
             trusted_base: vec!["std::panic::catch_unwind".into(), "proptest".into()],
         },
